@@ -46,6 +46,14 @@ class Check(PropertyCheck):
             return "unified status was changed"
         if (obs["result"] == 0) != (code == 0):
             return "OK must be returned exactly for the family's success code (0)"
+        # the codes that steer retries and start-up decisions, by their wire values (EmberZNet stack status -> unified
+        # status; the application retries on 0x0C03 / 0x0019, treats 0x17 as "no network", 0x2D as "no such entry",
+        # 0x27 as "no free index", 0x15 / 0x16 as network up / down)
+        steering = {0x72: 0x0C03, 0xA1: 0x0C03, 0x18: 0x0019, 0x93: 0x0017, 0x03: 0x002D, 0xB6: 0x002D, 0xB1: 0x0027,
+                    0x90: 0x0015, 0x91: 0x0016}
+        if tag == 1 and code in steering and obs["result"] != steering[code]:
+            return (f"stack status {code:#04x} must map to the unified status {steering[code]:#06x} the application steers by, "
+                    f"it maps to {obs['result']:#06x}")
         return None
 
     def nontrivial(self, case, obs):
